@@ -110,7 +110,7 @@ CLAIMED = {
         "sub-iteration: one call outside any loop in each update_estimate implementation and no call anywhere else in the library; every "
         "TOF bin is processed: the objective function hands the distributable layer the symmetric range of one member, that member "
         "is re-derived from the data's maximum TOF index on every path of the set-up, and distributable_computation's TOF loop runs "
-        "over exactly the range it is handed; the counting loops of the balanced-subsets reports (projection-data and list-mode objective) run from get_min_Y to get_max_Y inclusive (F72, fixed). "
+        "over exactly the range it is handed; the counting loops of the balanced-subsets reports (projection-data and list-mode objective) run from get_min_Y to get_max_Y inclusive (F72, fixed) and the related-bin counts they add up are definitely assigned (F73, fixed). "
         "NOT decided: that randomly_permute_subset_order returns a permutation; that "
         "is_basic/related views partition the views for each symmetry class (modular arithmetic over num_views).",
         technique="static analysis: normalised loop descriptors, sibling agreement, resolved-callee argument pass-through, "
